@@ -17,9 +17,10 @@
 (*     both: GET /doctor, GET /discover, GET /remedy_stats, GET /handshake.     *)
 (*     Any other path (in particular an endpoint of the other mode) is 404,     *)
 (*     another verb is 405 ("Unsupported Method"), and neither changes          *)
-(*     anything.  [SetHandleRoutes; the handlers' method switches; the          *)
-(*     commands under proxy/rootfs/usr/bin: load_flows, validate_flows,         *)
-(*     apply_policies, validate use wget --post-data, doctor a plain GET]       *)
+(*     anything; otherwise acceptance is any 2xx status, refusal any other.     *)
+(*     [SetHandleRoutes; the handlers' method switches; the commands under      *)
+(*     proxy/rootfs/usr/bin: load_flows, validate_flows, apply_policies,        *)
+(*     validate use wget --post-data, doctor a plain GET]                       *)
 (*  S2 Validation is pure.  /validate_flows and /validate_policies look at the  *)
 (*     configuration on disk and answer 200 or an error; they never change the  *)
 (*     tree, the configuration that is serving traffic, or what is registered   *)
@@ -271,7 +272,7 @@ PStart(p, e, known) ==
 PDoctor(p, e, cands) ==
     \* cands: the configurations that may be loaded right now
     LET a == Fld(e, "ans", [parsed |-> FALSE]) IN
-    IF ~(e.code = 200 /\ a.parsed /\ a.md5ok /\ a.streams = (p.mode = "flows")) THEN Bad("Introspect", p)
+    IF ~(IsOK(e.code) /\ a.parsed /\ a.md5ok /\ a.streams = (p.mode = "flows")) THEN Bad("Introspect", p)
     ELSE IF p.mode = "flows" THEN
         IF ~a.hasloaded \/ a.haspol THEN Bad("Introspect", p)
         ELSE IF \E c \in cands : a.files = Listed(c) /\ e.obs.served = Beh(c) THEN Ok(p)
@@ -285,17 +286,17 @@ PGet(p, e, cands) ==
     LET a == Fld(e, "ans", [parsed |-> FALSE]) IN
     CASE e.ep = "doctor" -> PDoctor(p, e, cands)
       [] e.ep = "handshake" ->
-            IF e.code = 200 /\ a.parsed /\ a.managed = p.managed THEN Ok(p) ELSE Bad("Introspect", p)
+            IF IsOK(e.code) /\ a.parsed /\ a.managed = p.managed THEN Ok(p) ELSE Bad("Introspect", p)
       [] OTHER ->
             LET w == IF e.ep = "discover" THEN "discover" ELSE "remedy" IN
             IF p.sf[w] = "absent" THEN (IF ~IsOK(e.code) THEN Ok(p) ELSE Bad("Introspect", p))
-            ELSE IF e.code = 200 /\ a.parsed /\ a.data = p.sf[w] THEN Ok(p) ELSE Bad("Introspect", p)
+            ELSE IF IsOK(e.code) /\ a.parsed /\ a.data = p.sf[w] THEN Ok(p) ELSE Bad("Introspect", p)
 
 \* ---- flows mode
 PValidateFlows(p, e, known) ==
     LET val == Validity(p.disk, known) IN
     IF val = "unknown" THEN Res("", p, {}, {<<p.disk, IsOK(e.code)>>})
-    ELSE IF (val = "valid") = (e.code = 200) /\ (val = "invalid") = ~IsOK(e.code) THEN Ok(p) ELSE Bad("ValidateVerdict", p)
+    ELSE IF (val = "valid") = (IsOK(e.code)) /\ (val = "invalid") = ~IsOK(e.code) THEN Ok(p) ELSE Bad("ValidateVerdict", p)
 
 PLoadFlows(p, e, known) ==
     LET o == e.obs
@@ -313,7 +314,7 @@ PLoadFlows(p, e, known) ==
     ELSE IF val = "invalid" THEN
         IF IsOK(e.code) THEN Bad("Agree", p) ELSE IF Untouched(p, o) THEN Ok(p) ELSE Bad("LoadOutcome", p)
     ELSE IF val = "valid" THEN
-        IF e.code # 200 THEN Bad("Agree", p) ELSE IF o.served = Beh(p.disk) THEN Ok(new) ELSE Bad("LoadOutcome", p)
+        IF ~IsOK(e.code) THEN Bad("Agree", p) ELSE IF o.served = Beh(p.disk) THEN Ok(new) ELSE Bad("LoadOutcome", p)
     ELSE IF IsOK(e.code) THEN
         IF o.served = Beh(p.disk) THEN Res("", new, {}, {<<p.disk, TRUE>>}) ELSE Bad("LoadOutcome", p)
     ELSE IF Untouched(p, o) THEN Res("", p, {}, {<<p.disk, FALSE>>}) ELSE Bad("LoadOutcome", p)
@@ -349,20 +350,20 @@ PUpdate(p, ep, arg, code, o, disk0, sha0, cur0, known) ==
         ELSE Refused({}, TRUE)
     ELSE IF val = "invalid" THEN (IF IsOK(code) THEN Bad("Agree", p) ELSE Refused({}, FALSE))
     ELSE IF val = "valid" THEN
-        IF code # 200 THEN Bad("Agree", p) ELSE IF isNew /\ o.served = Beh(tgt) THEN Ok(new) ELSE Bad("UpdateOutcome", p)
+        IF ~IsOK(code) THEN Bad("Agree", p) ELSE IF isNew /\ o.served = Beh(tgt) THEN Ok(new) ELSE Bad("UpdateOutcome", p)
     ELSE IF IsOK(code) THEN
         IF isNew /\ o.served = Beh(tgt) THEN Res("", new, {}, {<<tgt, TRUE>>}) ELSE Bad("UpdateOutcome", p)
     ELSE Refused({<<tgt, FALSE>>}, FALSE)
 
 POnError(p, e) ==
-    IF e.arg.decodable = (e.code = 200) /\ (~e.arg.decodable) = ~IsOK(e.code) /\ Untouched(p, e.obs) THEN Ok(p) ELSE Bad("ErrorReport", p)
+    IF e.arg.decodable = (IsOK(e.code)) /\ (~e.arg.decodable) = ~IsOK(e.code) /\ Untouched(p, e.obs) THEN Ok(p) ELSE Bad("ErrorReport", p)
 
 \* ---- policy mode
 PValidatePolicies(p, e) ==
     LET cls == PolClass(p.disk.pol) IN
-    IF cls = "ok" THEN (IF e.code = 200 THEN Ok(p) ELSE Bad("ValidateVerdict", p))
+    IF cls = "ok" THEN (IF IsOK(e.code) THEN Ok(p) ELSE Bad("ValidateVerdict", p))
     ELSE IF cls = "invalid" THEN (IF ~IsOK(e.code) THEN Ok(p) ELSE Bad("ValidateVerdict", p))
-    ELSE Reading(~IsOK(e.code), e.code = 200, "ValidateAcceptsConflict", "ValidateVerdict", p)
+    ELSE Reading(~IsOK(e.code), IsOK(e.code), "ValidateAcceptsConflict", "ValidateVerdict", p)
 
 PApplyPolicies(p, e) ==
     LET o == e.obs
@@ -381,7 +382,7 @@ PApplyPolicies(p, e) ==
              THEN Ok([p EXCEPT !.disk = o.disk, !.sha = o.sha, !.cur = IF o.served = PolServed(p.cur) THEN p.cur ELSE c, !.alt = {}, !.loose = FALSE])
         ELSE Bad("LoadOutcome", p)
     ELSE IF cls = "ok" THEN
-        IF e.code # 200 THEN Bad("Agree", p)
+        IF ~IsOK(e.code) THEN Bad("Agree", p)
         ELSE IF o.disk = newdisk /\ o.served = PolServed(c) THEN Ok(new) ELSE Bad("LoadOutcome", p)
     ELSE IF IsOK(e.code) THEN Bad("Agree", p)
     ELSE IF o.served # PolServed(p.cur) \/ o.put # 0 THEN Bad("LoadOutcome", p)
@@ -400,7 +401,7 @@ PRevert(p, e, free) ==
         ELSE IF o.served = PolServed(p.cur) THEN Ok(p)
         ELSE IF Loadable(src) /\ o.served = PolServed(c) THEN Ok([p EXCEPT !.cur = c, !.alt = {}, !.loose = FALSE]) ELSE Bad("Revert", p)
     ELSE IF Loadable(src) THEN
-        IF e.code = 200 /\ o.served = PolServed(c) THEN Ok([p EXCEPT !.cur = c, !.alt = {}, !.loose = FALSE]) ELSE Bad("Revert", p)
+        IF IsOK(e.code) /\ o.served = PolServed(c) THEN Ok([p EXCEPT !.cur = c, !.alt = {}, !.loose = FALSE]) ELSE Bad("Revert", p)
     ELSE \* the file holds a configuration that was never loaded (only reachable under the engine's reading)
         Reading(FALSE, ~IsOK(e.code) /\ Untouched(p, o), "RevertImpossible", "Revert", p)
 
@@ -417,12 +418,12 @@ PDuringFlight(p, e, known) ==
     ELSE IF ~steady THEN Bad(IF e.ep \in {"validate_flows"} THEN "ValidatePure" ELSE "ReadOnly", p)
     ELSE IF e.ep = "validate_flows" THEN PValidateFlows(p, e, known)
     ELSE IF e.ep = "on_haproxy_error" THEN
-        (IF e.arg.decodable = (e.code = 200) /\ (~e.arg.decodable) = ~IsOK(e.code) THEN Ok(p) ELSE Bad("ErrorReport", p))
+        (IF e.arg.decodable = (IsOK(e.code)) /\ (~e.arg.decodable) = ~IsOK(e.code) THEN Ok(p) ELSE Bad("ErrorReport", p))
     ELSE IF e.ep = "doctor" /\ PGet(p, e, cands).v # "" THEN
         \* between the switch to the new engine and its announcement to the hub the doctor lists the flows only
         LET a == Fld(e, "ans", [parsed |-> FALSE])
             flowsOf(c) == Restrict(c, {q \in DOMAIN c : q \in {FP[f] : f \in ProbeFlows}})
-        IN Reading(FALSE, e.code = 200 /\ a.parsed /\ a.streams /\ a.hasloaded /\ (\E c \in cands : Beh(c) = o.served /\
+        IN Reading(FALSE, IsOK(e.code) /\ a.parsed /\ a.streams /\ a.hasloaded /\ (\E c \in cands : Beh(c) = o.served /\
                               flowsOf(a.files) = flowsOf(c) /\ (\A q \in DOMAIN a.files : q \in DOMAIN c /\ a.files[q] = c[q])),
                    "DoctorMidSwitch", "Introspect", p)
     ELSE IF e.ep \in DOMAIN CommonRoutes THEN PGet(p, e, cands)
